@@ -11,7 +11,7 @@ package api
 // body limit is inside. Authentication / signature verification come after it, then user middlewares, then the
 // handler; the result is registered under the route's method and path.
 //@ func (*engine).bindRoute
-//@   prop C02, C03, C04
+//@   prop C02, C03, C04, C01, C09
 //@   opaque getLogHandler, getShedder, checkedTimeout, checkedMaxBytes, appendAuthHandler, convertMiddleware
 //@   opaque New, TracingHandler, PrometheusHandler, MaxConns, BreakerHandler, SheddingHandler, TimeoutHandler, MetricHandler, MaxBytesHandler
 //@   requires ng != nil
